@@ -204,6 +204,6 @@ theorem ValGoal_of_full {W : Nat} {bs pad : List Nat} {s : PState} {f : Frame} {
   | error e => exact hE
   | ok x =>
     obtain ⟨v, next⟩ := x
-    exact Or.inr ⟨hE, by unfold CapV; omega⟩
+    exact Or.inr (Or.inl ⟨hE, by unfold CapV; omega⟩)
 
 end Sonic.Proofs.Parse
